@@ -341,6 +341,9 @@ impl ForwardedStreamSink {
 
         if (100..200).contains(&response.status.as_u16()) {
             state.respond.send_intermediate_response(response)?;
+            // the rest of the chunk is unsent because of the state machine, not because of
+            // flow control: the next response must be parsed without waiting for writability
+            self.fake_unsent = !tail.is_empty();
             return Ok(tail);
         }
 
